@@ -3,6 +3,7 @@ The new-header stream over whole submission histories: every submission's announ
 to the previous best chain, gives the new best chain.
 -/
 import BRV.Proofs.RepoReorg
+import BRV.Proofs.RepoLastCommon
 
 namespace BRV.Repo
 
@@ -150,7 +151,7 @@ theorem reselect_reorg_shape (r : Repo) (hc : ChainWF r) (r2 : Repo) (evs : List
     (hbt : BelowTip r.arena) (h : reselect r = .ok (r2, true, evs))
     (cOld cNew : List Hdr) (hold : IsChain r.arena r.longest cOld) (hnew : IsChain r.arena r2.longest cNew) :
     ∃ (pre : List Hdr) (p : Hdr) (rest : List Hdr), cOld = pre ++ [p] ++ rest ∧ cNew = pre ++ [p] ++ evs ∧
-      Spec.Linked p evs ∧ ((pre ++ [p] ++ evs).map (·.id)).Nodup ∧ evs ≠ [] := by
+      Spec.Linked p evs ∧ ((pre ++ [p] ++ evs).map (·.id)).Nodup ∧ evs ≠ [] ∧ (∀ e ∈ evs, e ∉ cOld) := by
   have hw := hc.wf.link
   -- what reselect did
   unfold reselect at h
@@ -301,8 +302,51 @@ theorem reselect_reorg_shape (r : Repo) (hc : ChainWF r) (r2 : Repo) (evs : List
                 have hbh : bh = bb.height := by omega
                 rw [hbh] at hlgm holdm
                 exact tip_not_shared r.arena hw r.branches hc.wf.ids hbt lg r.longest hneq bb hbb d hlgm holdm
+              -- the intersect is the LAST common header: no announced header is on the old chain
+              have hfresh : ∀ e ∈ evs', e ∉ cOld := by
+                obtain ⟨m', d', hb', _, hid', hlast⟩ := intersect_last r.arena hw hc.owns r.branches hc.wf.ids r.fuel lg
+                  r.longest ih bb ob hbb hob hneq hih
+                have hm' : m' = bh := by
+                  have := atH_same_id r.arena hw r.branches hc.wf.ids lg lg m' bh d' d hb' hlgm (by rw [hid', hid])
+                  exact this.2
+                subst hm'
+                have key : ∀ (i : Nat) (x y : HData), atH r.arena lg (m' + 1 + (i : Int)) = some x →
+                    atH r.arena r.longest (m' + 1 + (i : Int)) = some y → x.hdr.id ≠ y.hdr.id := by
+                  intro i
+                  induction i with
+                  | zero =>
+                    intro x y hx hy
+                    simp only [Int.natCast_zero, Int.add_zero] at hx hy
+                    exact hlast x y hx hy
+                  | succ i ihi =>
+                    intro x y hx hy heq
+                    obtain ⟨hxy, _⟩ := atH_same_id r.arena hw r.branches hc.wf.ids _ _ _ _ x y hx hy heq
+                    obtain ⟨_, _, hleN⟩ := atH_some_le_height r.arena hw lg _ x hx
+                    obtain ⟨obx, hobx, hleO⟩ := atH_some_le_height r.arena hw r.longest _ y hy
+                    rw [hob] at hobx; simp only [Option.some.injEq] at hobx; subst hobx
+                    have e1 : m' + 1 + ((i + 1 : Nat) : Int) - 1 = m' + 1 + (i : Int) := by omega
+                    obtain ⟨x', hx'⟩ := atH_complete r.arena hw hc.root lg bb hbb (m' + 1 + (i : Int)) (by omega) (by
+                      obtain ⟨bbx, hbbx, hle⟩ := atH_some_le_height r.arena hw lg _ x hx
+                      rw [hbb] at hbbx; simp only [Option.some.injEq] at hbbx; subst hbbx; omega)
+                    obtain ⟨y', hy'⟩ := atH_complete r.arena hw hc.root r.longest ob hob (m' + 1 + (i : Int)) (by omega) (by omega)
+                    have l1 := atH_linked r.arena hw lg _ x x' hx (by rw [e1]; exact hx')
+                    have l2 := atH_linked r.arena hw r.longest _ y y' hy (by rw [e1]; exact hy')
+                    exact ihi x' y' hx' hy' (by rw [← l1, ← l2, hxy])
+                intro e he hmem
+                obtain ⟨j, hj⟩ := List.getElem?_of_mem he
+                obtain ⟨dj, hdj, hej⟩ := hevidx j (getElem?_lt _ _ _ hj)
+                rw [hj] at hej
+                simp only [Option.some.injEq] at hej
+                obtain ⟨t, ht⟩ := List.getElem?_of_mem hmem
+                obtain ⟨y, hy, hcy⟩ := hidxO t (getElem?_lt _ _ _ ht)
+                rw [ht] at hcy
+                simp only [Option.some.injEq] at hcy
+                have hids : dj.hdr.id = y.hdr.id := by rw [← hej, hcy]
+                obtain ⟨_, hkk⟩ := atH_same_id r.arena hw r.branches hc.wf.ids _ _ _ _ dj y hdj hy hids
+                rw [← hkk] at hy
+                exact key j dj y hdj hy hids
               rw [hsplitN] at hnodup
-              exact ⟨cOld.take bh.toNat, d.hdr, cOld.drop (bh.toNat + 1), hsplitO, hsplitN, hlink, hnodup, hne⟩
+              exact ⟨cOld.take bh.toNat, d.hdr, cOld.drop (bh.toNat + 1), hsplitO, hsplitN, hlink, hnodup, hne, hfresh⟩
     · simp only [hneq, ↓reduceIte, Except.ok.injEq, Prod.mk.injEq, Bool.false_eq_true, false_and, and_false] at h
 
 /-- **a reorganisation announcement rebuilds the new best chain.** In a repository reached by
@@ -313,7 +357,7 @@ theorem reselect_reorg_stream (r : Repo) (hc : ChainWF r) (r2 : Repo) (evs : Lis
     (hbt : BelowTip r.arena) (h : reselect r = .ok (r2, true, evs))
     (cOld cNew : List Hdr) (hold : IsChain r.arena r.longest cOld) (hnew : IsChain r.arena r2.longest cNew) :
     Spec.applyStream cOld evs = cNew := by
-  obtain ⟨pre, p, rest, ho, hn, hlink, hnd, hne⟩ := reselect_reorg_shape r hc r2 evs hbt h cOld cNew hold hnew
+  obtain ⟨pre, p, rest, ho, hn, hlink, hnd, hne, _⟩ := reselect_reorg_shape r hc r2 evs hbt h cOld cNew hold hnew
   rw [ho, hn]
   exact Spec.applyStream_reorg pre p rest evs hlink hnd hne
 
